@@ -196,3 +196,43 @@ Check D05_hit_or_fetch : forall mac c st t_ns t_s client port local tcp b u id e
      (qs <> [] /\ r = fst (out_query tcp id u) /\
       (qclass q <> 1 \/ DnsCache.get_entry (s_cache st) (key_of q) t_ns = None))).
 Print Assumptions D05_hit_or_fetch.
+
+(* D06 -- REFUSED volume per source, at the level of the whole pipeline.  Over ANY history of steps
+   (any clients, transports, queries, upstream behaviour) whose wall-clock times are non-decreasing
+   within [t1,t2]: the tokens charged to one source address a for rate-limitable replies that were
+   actually SENT to it -- REFUSED, over UDP, to a query without a valid server cookie
+   ([limited_class]) -- are at most 2*CAP + 2*RATE*(t2-t1), whoever else hashes into its two
+   buckets.  Lifts C16_source_bound (same potential argument, now on the 256-bucket state inside
+   dns_step).  [run_tokens] / [run_octets] sum [step_tokens] / [step_octets] along the run. *)
+Theorem D06_refused_tokens_bounded : forall mac c a xs st t1 t2,
+  cfg_ok c -> buckets_ok t1 st -> Bucket.window Bucket.CAP Bucket.RATE <= t1 -> t2 < pow2 32 -> xs_sorted t1 t2 xs ->
+  run_tokens mac c st xs a <= 2 * Bucket.CAP + 2 * (Bucket.RATE * (t2 - t1)).
+Proof. exact d06_tokens. Qed.
+Check D06_refused_tokens_bounded : forall mac c a xs st t1 t2,
+  cfg_ok c -> buckets_ok t1 st -> Bucket.window Bucket.CAP Bucket.RATE <= t1 -> t2 < pow2 32 -> xs_sorted t1 t2 xs ->
+  run_tokens mac c st xs a <= 2 * Bucket.CAP + 2 * (Bucket.RATE * (t2 - t1)).
+Print Assumptions D06_refused_tokens_bounded.
+
+(* the same bound for the OCTETS of those replies when each is covered by its charge, which holds
+   (D06_covered) for replies of at most 200 octets or not shorter than their query *)
+Theorem D06_refused_octets_bounded : forall mac c a xs st t1 t2,
+  cfg_ok c -> buckets_ok t1 st -> Bucket.window Bucket.CAP Bucket.RATE <= t1 -> t2 < pow2 32 -> xs_sorted t1 t2 xs ->
+  run_covered mac c st xs a ->
+  run_octets mac c st xs a <= 2 * Bucket.CAP + 2 * (Bucket.RATE * (t2 - t1)).
+Proof. exact d06_octets. Qed.
+Check D06_refused_octets_bounded : forall mac c a xs st t1 t2,
+  cfg_ok c -> buckets_ok t1 st -> Bucket.window Bucket.CAP Bucket.RATE <= t1 -> t2 < pow2 32 -> xs_sorted t1 t2 xs ->
+  run_covered mac c st xs a ->
+  run_octets mac c st xs a <= 2 * Bucket.CAP + 2 * (Bucket.RATE * (t2 - t1)).
+Print Assumptions D06_refused_octets_bounded.
+
+Theorem D06_covered : forall mac c st x a st' bytes qs,
+  step mac c st x = Ok (st', Some bytes, qs) ->
+  (lenN bytes <= Bucket.MIN_COST \/ lenN (x_b x) <= lenN bytes) -> lenN bytes < 2147483648 ->
+  step_octets mac c st x a <= step_tokens mac c st x a.
+Proof. exact covered_step. Qed.
+Check D06_covered : forall mac c st x a st' bytes qs,
+  step mac c st x = Ok (st', Some bytes, qs) ->
+  (lenN bytes <= Bucket.MIN_COST \/ lenN (x_b x) <= lenN bytes) -> lenN bytes < 2147483648 ->
+  step_octets mac c st x a <= step_tokens mac c st x a.
+Print Assumptions D06_covered.
